@@ -68,7 +68,7 @@ func c11Enum() {
 
 func c11Tier(tier string) (seq, conc int) {
 	if tier == "thorough" {
-		return 100000, 2000
+		return 60000, 800
 	}
 	return 3000, 120
 }
